@@ -143,6 +143,19 @@ impl<C: CellType> BcInterpreter<C> {
     }
 }
 
+#[cfg(hpbf_verif)]
+impl<C: CellType> BcInterpreter<C> {
+    /// Verification hook: the bytecode exactly as held (and executed) by this interpreter.
+    pub fn verif_bytecode(&self) -> &Program<C> {
+        &self.bytecode
+    }
+
+    /// Verification hook: build an interpreter for a hand-built bytecode program.
+    pub fn verif_from_bytecode(bytecode: Program<C>) -> Self {
+        BcInterpreter { bytecode }
+    }
+}
+
 impl<C: CellType> Executor<'_, C> for BcInterpreter<C> {
     fn create(code: &str, opt: u32) -> Result<Self, Error> {
         let mut program = ir::Program::<C>::parse(code)?;
